@@ -7,11 +7,12 @@ use crate::runner::{run_part, Failure, Known, Part, Verdict};
 use crate::src::Src;
 use crate::stats::Stats;
 use crate::{PropRun, Tier};
+use flsrc::board::Board;
 use flsrc::eval::Evaluator;
 use refchess::{sq_of, Color, Kind, Pos};
 use serde_json::{json, Value};
 
-pub const RULE: &str = "one long-lived Evaluator fed a generated sequence of 2..60 positions (C01 mixture + extreme-material family: up to nine queens/all men vs bare king, both colours, all phases). Oracle (algebraic laws): value from the long-lived evaluator == value from a fresh Evaluator::new() == value on immediate re-evaluation (purity); eval(side-to-move swapped) == -eval exactly; eval(rank-mirrored, colours and side exchanged) == eval; |eval| < 32767 (maximum reported). Non-trivial = material unbalanced or placement not mirror-symmetric; distinct by FEN.";
+pub const RULE: &str = "one long-lived Evaluator fed a generated sequence of 2..60 positions (C01 mixture + extreme-material family: up to nine queens/all men vs bare king, both colours, all phases). Oracle (algebraic laws): value from the long-lived evaluator == value from a fresh Evaluator::new() == value on immediate re-evaluation (purity); eval(side-to-move swapped) == -eval exactly; eval(rank-mirrored, colours and side exchanged) == eval; |eval| < 32767 (maximum reported). Non-trivial = material unbalanced or placement not mirror-symmetric; distinct by FEN. Marathons: one evaluator fed 150 k (1.5 M thorough) generated positions with ever new pawn structures, each value compared with a fresh evaluator.";
 
 pub const BOUND: i32 = 32767;
 
@@ -149,6 +150,99 @@ fn judge_sequence_inner(seq: &[(Pos, &'static str)], long_lived: &mut Evaluator,
     Ok(())
 }
 
+fn mix(x: u64) -> u64 {
+    let mut z = x.wrapping_add(0x9e3779b97f4a7c15);
+    z = (z ^ (z >> 30)).wrapping_mul(0xbf58476d1ce4e5b9);
+    z = (z ^ (z >> 27)).wrapping_mul(0x94d049bb133111eb);
+    z ^ (z >> 31)
+}
+
+/// The i-th position of the marathon with the given salt: two kings, 0..8 pawns a side on ranks
+/// 2..7 (the point is the variety of pawn structures), 0..3 other men.  Valid by construction
+/// or repaired; None if it cannot be made valid.
+fn marathon_position(salt: u64, i: u64) -> Option<Pos> {
+    let mut r = mix(salt ^ i.wrapping_mul(0x2545f4914f6cdd1d));
+    let mut next = |n: u64| {
+        r = mix(r);
+        r % n
+    };
+    let mut p = Pos::empty();
+    let wk = next(64) as u8;
+    let mut bk = next(64) as u8;
+    let adj = |a: u8, b: u8| ((a % 8) as i32 - (b % 8) as i32).abs() <= 1 && ((a / 8) as i32 - (b / 8) as i32).abs() <= 1;
+    let mut g = 0;
+    while adj(wk, bk) && g < 64 {
+        bk = (bk + 11) % 64;
+        g += 1;
+    }
+    p.sq[wk as usize] = Some((refchess::Color::W, refchess::Kind::K));
+    p.sq[bk as usize] = Some((refchess::Color::B, refchess::Kind::K));
+    for c in [refchess::Color::W, refchess::Color::B] {
+        for _ in 0..next(9) {
+            let sq = (8 + next(48)) as usize;
+            if p.sq[sq].is_none() {
+                p.sq[sq] = Some((c, refchess::Kind::P));
+            }
+        }
+    }
+    for _ in 0..next(4) {
+        let sq = next(64) as usize;
+        if p.sq[sq].is_none() {
+            let c = if next(2) == 0 { refchess::Color::W } else { refchess::Color::B };
+            let k = [refchess::Kind::N, refchess::Kind::B, refchess::Kind::R, refchess::Kind::Q][next(4) as usize];
+            p.sq[sq] = Some((c, k));
+        }
+    }
+    p.stm = if next(2) == 0 { refchess::Color::W } else { refchess::Color::B };
+    gen::repair(&mut p);
+    if p.is_valid() {
+        Some(p)
+    } else {
+        None
+    }
+}
+
+/// Marathon: ONE evaluator is fed `n` positions with ever new pawn structures; each value must
+/// equal what a fresh evaluator says.  Whatever an evaluator remembers between calls (a cache of
+/// any size and any key) shows here or nowhere.  The run is a function of (salt, n).
+fn judge_marathon(salt: u64, n: u64, stats: &mut Stats) -> Verdict {
+    let mut long_lived = Evaluator::new();
+    let mut structures = std::collections::HashSet::new();
+    for i in 0..n {
+        let Some(p) = marathon_position(salt, i) else { continue };
+        let b = Board::new(&p.fen(0, 1));
+        let v = long_lived.evaluate(&b);
+        let vf = Evaluator::new().evaluate(&b);
+        stats.eval();
+        if v != vf {
+            return Err(Failure::new(
+                "impure",
+                json!({"fen": p.fen(0, 1), "how": "one evaluator fed a long stream of positions", "index_in_stream": i, "long_lived": v, "fresh": vf, "replay": {"marathon": true, "salt": format!("{:016x}", salt), "positions": n}}),
+            ));
+        }
+        if structures.len() < 400_000 {
+            let pawns: u64 = (0..64u8).filter(|q| matches!(p.sq[*q as usize], Some((_, refchess::Kind::P)))).fold(0u64, |a, q| a | 1 << q);
+            let white: u64 = (0..64u8).filter(|q| matches!(p.sq[*q as usize], Some((refchess::Color::W, refchess::Kind::P)))).fold(0u64, |a, q| a | 1 << q);
+            structures.insert((pawns, white));
+        }
+    }
+    stats.class("marathons");
+    stats.maximum("marathon_distinct_pawn_structures", structures.len() as i64);
+    stats.nontrivial(&(salt, n));
+    stats.sample(|| json!({"marathon_positions": n, "distinct_pawn_structures_seen_by_one_evaluator": structures.len(), "salt": format!("{:016x}", salt)}));
+    Ok(())
+}
+
+thread_local! {
+    static MARATHON_N: std::cell::Cell<u64> = std::cell::Cell::new(150_000);
+}
+
+fn check_marathon(bytes: &[u8], stats: &mut Stats) -> Verdict {
+    let mut s = Src::new(bytes);
+    let salt = s.u64();
+    judge_marathon(salt, MARATHON_N.with(|c| c.get()), stats)
+}
+
 pub fn fuzz_entry(bytes: &[u8]) -> Verdict {
     let mut st = Stats::new();
     check(bytes, &mut st)
@@ -163,11 +257,32 @@ pub fn run(tier: Tier, seed: u64, known: &Known) -> PropRun {
     let part = Part { name: "sequences", cases: tier.pick(40_000, 600_000), min_len: 32, max_len: 4000, max_shrink: 4000, threads: threads() };
     let (st, fl) = run_part(&part, seed, known, check);
     run.stats.merge(st);
+    if fl.is_some() {
+        run.failure = fl;
+        return run;
+    }
+    // marathons: one evaluator, hundreds of thousands of pawn structures
+    let n = tier.pick(150_000u64, 1_500_000u64);
+    let part = Part { name: "marathon", cases: tier.pick(16, 64), min_len: 8, max_len: 16, max_shrink: 4, threads: threads() };
+    let (st, fl) = run_part(&part, seed, known, |b, st| {
+        MARATHON_N.with(|c| c.set(n));
+        check_marathon(b, st)
+    });
+    run.stats.merge(st);
     run.failure = fl;
     run
 }
 
-pub fn replay(_part: &str, bytes: &[u8], case: &Value, stats: &mut Stats) -> Verdict {
+pub fn replay(part: &str, bytes: &[u8], case: &Value, stats: &mut Stats) -> Verdict {
+    if let Some(r) = case.get("replay").filter(|r| r.get("marathon").and_then(|x| x.as_bool()) == Some(true)) {
+        let salt = r.get("salt").and_then(|x| x.as_str()).and_then(|s| u64::from_str_radix(s, 16).ok()).unwrap_or(0);
+        let n = r.get("positions").and_then(|x| x.as_u64()).unwrap_or(0);
+        return judge_marathon(salt, n, stats);
+    }
+    if part == "marathon" {
+        MARATHON_N.with(|c| c.set(1_500_000));
+        return check_marathon(bytes, stats);
+    }
     // structural replay: the saved sequence of positions (or the single position of older files)
     let fens: Vec<String> = match case.get("replay").and_then(|r| r.get("sequence")).and_then(|x| x.as_array()) {
         Some(a) => a.iter().filter_map(|x| x.as_str().map(|s| s.to_string())).collect(),
